@@ -278,7 +278,7 @@ func RunCheck(spec *PropSpec, opts RunOpts) int {
 							inconc = append(inconc, fmt.Sprintf("ENGINE-MISMATCH: known finding %s model does not reproduce natively (%s %s)", c.KnownID, o.Result, o.Label))
 						}
 					default:
-						if (o.Result == "fail" && (c.Kind == "assert")) || (o.Result == "panic" && c.Kind == "panic") || (o.Result == "fail" || o.Result == "panic") {
+						if o.Result == "fail" || o.Result == "panic" || (c.KnownID != "" && contains(o.Known, c.KnownID)) {
 							validated++
 							confirmed = append(confirmed, c)
 						} else {
